@@ -31,6 +31,12 @@ def decorations(quick, seed):
                     did = '%s_e%02d' % (bn, j)
                     j += 1
                     decs.append((did, bn, progs.decorate_embed(b, did, s, e, twice), 'embed%s [%d:%d)' % (' twice' if twice else '', s, e)))
+    # an embedded struct that carries a (non-dash) parquet tag of its own: still embedding, still equal to inlining
+    for bn, b in list(bases.items()):
+        top = len(b.kids)
+        for ti, (s_, e_) in enumerate(((0, 1), (top - 1, top), (0, top))):
+            did = '%s_t%02d' % (bn, ti)
+            decs.append((did, bn, progs.decorate_embed(b, did, s_, e_, False, tag='audit'), 'embed tagged [%d:%d)' % (s_, e_)))
     # ONE struct type embedded in several places (root, an optional group, a repeated group)
     sb = progs.shared_base()
     bases['shared'] = sb
@@ -49,6 +55,7 @@ def decorations(quick, seed):
                 pick += rnd.sample(cand, min(1, len(cand)))
         pick += rnd.sample(em, min(13, len(em)))
         pick += [d for d in decs if d[3].startswith('unexported-names') or d[3].startswith('embed shared')]
+        pick += [d for d in decs if d[3].startswith('embed tagged')][::3]
         decs = pick
     return bases, decs
 
